@@ -4,7 +4,7 @@ PARTIAL claim.  That bytes survive close + reopen is libhdf5's.  nixio's own sha
 of the property is that it keeps NO state of its own: every getter and setter goes
 straight to the backend, containers are re-derived on access, and the state is
 independent of how many handles to an entity were used.  Decided here, on fakeh5:
-after any two operations from a table of 48 API calls (set / clear attributes,
+after any two operations from a table of 55 API calls (set / clear attributes,
 write / append data, create, delete, link, unlink, dimension changes - applied
 through long-lived handles that had already been read from, or through second
 handles of the same entities), the complete observable state read through the
@@ -65,10 +65,14 @@ def _fixture_c():
     E["child"] = src.create_source("child", "t")
     da.sources.append(src)
     da.metadata = sec
+    E["fr"] = blk.create_data_frame("fr", "t", col_names=["c", "d", "e"], col_dtypes=[int, float, str],
+                                    data=[(1, 0.5, "x"), (2, 1.5, "y")])
+    E["fr"].units = ["mV", None, None]
     # second long-lived handles of the same entities (obtained by navigation)
     b2 = f.blocks["blk"]
     E["blk_b"], E["da_b"], E["da2_b"], E["tag_b"], E["mt_b"], E["grp_b"] = (
         b2, b2.data_arrays["da"], b2.data_arrays["da2"], b2.tags["tg"], b2.multi_tags["mt"], b2.groups["grp"])
+    E["fr_b"] = b2.data_frames["fr"]
     E["sec_b"] = f.sections["sec"]
     E["prop_b"] = E["sec_b"].props["p"]
     E["sprop_b"] = E["sec_b"].props["s"]
@@ -155,6 +159,14 @@ def _state(f, H=None):
                       sources=_g(lambda a=a: [s.id for s in a.sources]),
                       dims=_g(lambda a=a: [_dim(h2(H, a, i, d)) for i, d in enumerate(a.dimensions)]))
             bd["arrays"].append(ad)
+        bd["frames"] = []
+        for d in b.data_frames:
+            d = h(d)
+            dd = _ent(d)
+            dd.update(columns=_g(lambda d=d: list(d.column_names)), kinds=_g(lambda d=d: [str(x) for x in d.dtype]),
+                      rows=_g(lambda d=d: [_vals(list(r)) for r in d[:]]), df_shape=_g(lambda d=d: list(d.df_shape)),
+                      units=_g(lambda d=d: None if d.units is None else _vals(d.units)))
+            bd["frames"].append(dd)
         for t in b.tags:
             t = h(t)
             td = _ent(t)
@@ -243,15 +255,23 @@ def _ops(E):
         ("da.sources append", lambda: da.sources.append(E["child"])),                        # 45
         ("da.sources del via 2nd", lambda: E["da_b"].sources.__delitem__(E["src"].id)),      # 46
         ("da.sources append via 2nd", lambda: E["da_b"].sources.append(E["child"])),         # 47
+        # a data frame through its first and its second long-lived handle
+        ("fr.append_rows", lambda: E["fr"].append_rows([(3, 2.5, "z")])),                    # 48
+        ("fr.append_rows via 2nd", lambda: E["fr_b"].append_rows([(4, 3.5, "w")])),          # 49
+        ("fr.write_cell", lambda: E["fr"].write_cell(9, position=[0, 0])),                   # 50
+        ("fr.write_column via 2nd", lambda: E["fr_b"].write_column([7.5, 8.5], name="d")),   # 51
+        ("fr.append_column", lambda: E["fr"].append_column([True, False], "g")),            # 52
+        ("fr.units via 2nd", lambda: setattr(E["fr_b"], "units", ["s", "ms", None])),        # 53
+        ("del fr", lambda: blk.data_frames.__delitem__("fr")),                               # 54
     ]
 
 
-NOPS = 48
+NOPS = 55
 
 
 def _handles(E):
     H = {}
-    for k in ("blk", "da", "da2", "tag", "mt", "grp", "src", "child", "sec", "sub", "prop"):
+    for k in ("blk", "da", "da2", "tag", "mt", "grp", "src", "child", "sec", "sub", "prop", "fr"):
         H[E[k].id] = E[k]
     H[(E["da"].id, 0)] = E["sdim"]
     H[(E["da2"].id, 0)] = E["rdim"]
@@ -261,7 +281,7 @@ def _handles(E):
 
 def _handles_b(E):
     H = {}
-    for k in ("blk", "da", "da2", "tag", "mt", "grp", "sec", "prop"):
+    for k in ("blk", "da", "da2", "tag", "mt", "grp", "sec", "prop", "fr"):
         H[E[k].id] = E[k + "_b"]
     return H
 
@@ -271,17 +291,20 @@ def _handles_b(E):
 # ---------------------------------------------------------------------------
 def _ob_no_hidden_state(o2: int, ro: bool) -> bool:
     """
-    pre: 0 <= o2 < 48
+    pre: 0 <= o2 < 55
     post: __return__
     """
     import nixio
     o1 = PART
+    # the fresh view is read-only for even second operations, read-write for odd ones
+    assume(ro == (o2 % 2 == 0))
     E = _fixture()
     f = E["file"]
     H = _handles(E)
     HB = _handles_b(E)
-    _state(f, H)                          # every long-lived handle has been read from once
-    _state(f, HB)
+    with untraced():
+        _state(f, H)                      # every long-lived handle has been read from once
+        _state(f, HB)
     ops = _ops(E)
     for sel in (o1, o2):
         label, action = _pick(ops, sel)
@@ -289,15 +312,18 @@ def _ob_no_hidden_state(o2: int, ro: bool) -> bool:
             action()
         except Exception:  # noqa  a refused second step (e.g. the target was deleted by the first)
             pass
-    session = _g(lambda: _state(f, H))
-    session_b = _g(lambda: _state(f, HB))
-    fresh = nixio.File(PATH, "r" if ro else "a")
-    reopened = _g(lambda: _state(fresh))
-    if session != reopened or session_b != reopened:
-        return False
-    f.close()
-    again = nixio.File(PATH, "r")
-    return _g(lambda: _state(again)) == reopened
+    mode = "r" if ro else "a"
+    # (everything is concrete from here on - the operations have been chosen: the walks run untraced)
+    with untraced():
+        session = _g(lambda: _state(f, H))
+        session_b = _g(lambda: _state(f, HB))
+        fresh = nixio.File(PATH, mode)
+        reopened = _g(lambda: _state(fresh))
+        if session != reopened or session_b != reopened:
+            return False
+        f.close()
+        again = nixio.File(PATH, "r")
+        return _g(lambda: _state(again)) == reopened
 
 
 # ---------------------------------------------------------------------------
@@ -470,7 +496,7 @@ def _real(fn_name, args):
 
 OBLIGATIONS = [
     Ob("no_hidden_state", _ob_no_hidden_state, timeout=1200,
-       partition_by_tier={"quick": list(range(0, 38, 3)) + [29, 32, 38, 40, 42, 44, 46], "thorough": list(range(NOPS))},
+       partition_by_tier={"quick": list(range(NOPS)), "thorough": list(range(NOPS))},
        functions=["nixio.entity.Entity.definition", "nixio.data_array.DataArray.label",
                   "nixio.container.Container.__iter__", "nixio.hdf5.h5group.H5Group.get_attr",
                   "nixio.hdf5.h5group.H5Group.set_attr", "nixio.file.File.close"],
